@@ -42,6 +42,7 @@ type Env struct {
 	qn      *int
 	oldBinds map[string]binding
 	headEnv *Env
+	pending []Term // type facts about quantified terms (not assumed globally)
 }
 
 func (fc *FnCtx) pkgTypes() *types.Package {
@@ -78,6 +79,7 @@ func (fc *FnCtx) entryEnv() *Env {
 				if _, clash := e.binds[fv.Name()]; !clash {
 					e.binds[fv.Name()] = binding{fc.load(fc.entry, pt.Elem(), p.Obj(), p.Off()), pt.Elem()}
 				}
+				e.binds["&"+fv.Name()] = binding{p, fv.Type()}
 			}
 		}
 	}
@@ -166,6 +168,25 @@ func (e *Env) resolve(name string) (binding, bool) {
 				return binding{e.phiValue(found), found.Type()}, true
 			}
 		}
+		// 1b. address-taken local (unique by name): its current value is in its cell
+		{
+			var found *ssa.Alloc
+			n := 0
+			for _, b := range fc.fn.Blocks {
+				for _, ins := range b.Instrs {
+					if a, ok := ins.(*ssa.Alloc); ok && a.Comment == name {
+						n++
+						found = a
+					}
+				}
+			}
+			if n == 1 {
+				if p, ok := fc.vals[found]; ok && p.K == KPtr {
+					et := found.Type().Underlying().(*types.Pointer).Elem()
+					return binding{e.loadT(et, p.Obj(), p.Off()), et}, true
+				}
+			}
+		}
 		// 2. dominator walk
 		start := e.atBlk
 		if e.header != nil {
@@ -198,7 +219,7 @@ func (e *Env) resolve(name string) (binding, bool) {
 						p := fc.val(x.X)
 						pt, ok := x.X.Type().Underlying().(*types.Pointer)
 						if ok && p.K == KPtr {
-							return binding{fc.load(e.st, pt.Elem(), p.Obj(), p.Off()), pt.Elem()}, true
+							return binding{e.loadT(pt.Elem(), p.Obj(), p.Off()), pt.Elem()}, true
 						}
 						continue
 					}
@@ -220,7 +241,7 @@ func (e *Env) resolve(name string) (binding, bool) {
 				if a, ok := ins.(*ssa.Alloc); ok && a.Comment == name {
 					if p, ok := fc.vals[a]; ok && p.K == KPtr {
 						et := a.Type().Underlying().(*types.Pointer).Elem()
-						return binding{fc.load(e.st, et, p.Obj(), p.Off()), et}, true
+						return binding{e.loadT(et, p.Obj(), p.Off()), et}, true
 					}
 				}
 			}
@@ -230,7 +251,7 @@ func (e *Env) resolve(name string) (binding, bool) {
 			if fv.Name() == name {
 				p := fc.val(fv)
 				et := fv.Type().Underlying().(*types.Pointer).Elem()
-				return binding{fc.load(e.st, et, p.Obj(), p.Off()), et}, true
+				return binding{e.loadT(et, p.Obj(), p.Off()), et}, true
 			}
 		}
 	}
@@ -257,7 +278,7 @@ func (e *Env) resolve(name string) (binding, bool) {
 							return binding{PtrV(id, IntLit(0)), g.Type()}, true
 						}
 					}
-					return binding{fc.load(e.st, et, id, IntLit(0)), et}, true
+					return binding{e.loadT(et, id, IntLit(0)), et}, true
 				}
 			}
 		}
@@ -399,6 +420,15 @@ func (e *Env) eval(ex ast.Expr) sval {
 		}
 		return sval{v: b.v, t: b.t}
 	case *ast.UnaryExpr:
+		if x.Op == token.AND {
+			// &name: the cell of a captured variable (closure contracts)
+			if id, ok := x.X.(*ast.Ident); ok {
+				if b, ok := e.binds["&"+id.Name]; ok {
+					return sval{v: b.v, t: b.t}
+				}
+			}
+			specPanic("unsupported address-of")
+		}
 		a := e.eval(x.X)
 		switch x.Op {
 		case token.NOT:
@@ -416,8 +446,6 @@ func (e *Env) eval(ex ast.Expr) sval {
 			if a.v.T.Sort.IsBV() {
 				return sval{v: Leaf(mk(a.v.T.Sort, "bvnot", a.v.T)), t: a.t}
 			}
-		case token.AND:
-			// &x: address-of for globals handled in selector/index
 		}
 		specPanic("unsupported unary %s", x.Op)
 	case *ast.BinaryExpr:
@@ -436,7 +464,7 @@ func (e *Env) eval(ex ast.Expr) sval {
 		if !ok || a.v.K != KPtr {
 			specPanic("deref of non-pointer")
 		}
-		return sval{v: fc.load(e.st, pt.Elem(), a.v.Obj(), a.v.Off()), t: pt.Elem()}
+		return sval{v: e.loadT(pt.Elem(), a.v.Obj(), a.v.Off()), t: pt.Elem()}
 	}
 	specPanic("unsupported expression %T", ex)
 	return sval{}
@@ -648,7 +676,7 @@ func (e *Env) evalIndex(x *ast.IndexExpr) sval {
 			specPanic("bad slice index")
 		}
 		c := cellsOf(t.Elem())
-		return sval{v: fc.load(e.st, t.Elem(), a.v.Obj(), Add(a.v.Off(), Mul(idx, IntLit(c)))), t: t.Elem()}
+		return sval{v: e.loadT(t.Elem(), a.v.Obj(), Add(a.v.Off(), Mul(idx, IntLit(c)))), t: t.Elem()}
 	case *types.Array:
 		idx, ok := fc.toIntTerm(i)
 		if !ok {
@@ -677,13 +705,13 @@ func (e *Env) evalIndex(x *ast.IndexExpr) sval {
 			if _, isStruct := arr.Elem().Underlying().(*types.Struct); isStruct {
 				return sval{v: PtrV(a.v.Obj(), off), t: types.NewPointer(arr.Elem())}
 			}
-			return sval{v: fc.load(e.st, arr.Elem(), a.v.Obj(), off), t: arr.Elem()}
+			return sval{v: e.loadT(arr.Elem(), a.v.Obj(), off), t: arr.Elem()}
 		}
 	case *types.Map:
 		if a.v.K == KLeaf {
 			k := e.coerce(i, t.Key())
 			slot := fc.mapSlot(t.Key(), k.v)
-			return sval{v: fc.load(e.st, t.Elem(), a.v.T, Mul(slot, IntLit(cellsOf(t.Elem())))), t: t.Elem()}
+			return sval{v: e.loadT(t.Elem(), a.v.T, Mul(slot, IntLit(cellsOf(t.Elem())))), t: t.Elem()}
 		}
 	case *types.Basic:
 		if a.v.K == KLeaf && a.v.T.Sort == SStr {
@@ -727,6 +755,7 @@ func (e *Env) evalSlice(x *ast.SliceExpr) sval {
 
 func (e *Env) evalSelector(x *ast.SelectorExpr) sval {
 	fc := e.fc
+	_ = fc
 	// package-qualified constant
 	if id, ok := x.X.(*ast.Ident); ok && e.pkg != nil {
 		if _, isLocal := e.resolve(id.Name); !isLocal {
@@ -766,7 +795,7 @@ func (e *Env) evalSelector(x *ast.SelectorExpr) sval {
 						return sval{v: PtrV(v.Obj(), off), t: types.NewPointer(ft)}
 					}
 				}
-				return sval{v: fc.load(e.st, ft, v.Obj(), off), t: ft}
+				return sval{v: e.loadT(ft, v.Obj(), off), t: ft}
 			}
 		}
 		specPanic("no field %s", x.Sel.Name)
@@ -917,6 +946,52 @@ func (e *Env) evalCall(x *ast.CallExpr) sval {
 				return sval{v: Leaf(Term{fmt.Sprintf("(forall ((%s %s)) %s)", qv.S, sh.Sort, Implies(rng, body.v.T).S), SBool}), t: boolT}
 			}
 			return sval{v: Leaf(Term{fmt.Sprintf("(exists ((%s %s)) %s)", qv.S, sh.Sort, And(rng, body.v.T).S), SBool}), t: boolT}
+		case "visitedall":
+			// visitedall(m, v, body): body holds for every value of m already produced by
+			// the (unique) range loop over a map in this function
+			if len(x.Args) != 3 || len(fc.rangeGhost) != 1 {
+				specPanic("visitedall(m, v, body) needs exactly one range-over-map loop in the function")
+			}
+			var gname string
+			for _, g := range fc.rangeGhost {
+				gname = g
+			}
+			m := e.eval(x.Args[0])
+			mt, ok := m.t.Underlying().(*types.Map)
+			vid, ok2 := x.Args[1].(*ast.Ident)
+			if !ok || !ok2 || m.v.K != KLeaf {
+				specPanic("visitedall: bad arguments")
+			}
+			*e.qn++
+			sv := Term{fmt.Sprintf("slot!q%d", *e.qn), SInt}
+			n := e.sub()
+			val := e.loadT(mt.Elem(), m.v.T, Mul(sv, IntLit(cellsOf(mt.Elem()))))
+			n.binds[vid.Name] = binding{val, mt.Elem()}
+			body := n.eval(x.Args[2])
+			vis := Select(e.st.ghost[gname], sv)
+			return sval{v: Leaf(Term{fmt.Sprintf("(forall ((%s Int)) (! %s :pattern (%s)))", sv.S, Implies(vis, body.v.T).S, vis.S), SBool}), t: boolT}
+		case "mapall":
+			// mapall(m, v, body): body holds for every value v stored in map m
+			if len(x.Args) != 3 {
+				specPanic("mapall(m, v, body)")
+			}
+			m := e.eval(x.Args[0])
+			mt, ok := m.t.Underlying().(*types.Map)
+			vid, ok2 := x.Args[1].(*ast.Ident)
+			if !ok || !ok2 || m.v.K != KLeaf {
+				specPanic("mapall: bad arguments")
+			}
+			*e.qn++
+			sv := Term{fmt.Sprintf("slot!q%d", *e.qn), SInt}
+			n := e.sub()
+			val := e.loadT(mt.Elem(), m.v.T, Mul(sv, IntLit(cellsOf(mt.Elem()))))
+			n.binds[vid.Name] = binding{val, mt.Elem()}
+			body := n.eval(x.Args[2])
+			if body.v.K != KLeaf || body.v.T.Sort != SBool {
+				specPanic("mapall body not boolean")
+			}
+			indom := Select(Select(e.st.mdom, m.v.T), sv)
+			return sval{v: Leaf(Term{fmt.Sprintf("(forall ((%s Int)) (! %s :pattern (%s)))", sv.S, Implies(indom, body.v.T).S, indom.S), SBool}), t: boolT}
 		case "implies":
 			a, b := e.eval(x.Args[0]), e.eval(x.Args[1])
 			return sval{v: Leaf(Implies(a.v.T, b.v.T)), t: boolT}
@@ -971,6 +1046,15 @@ func (e *Env) evalCall(x *ast.CallExpr) sval {
 				specPanic("fresh of non-reference")
 			}
 			return sval{v: Leaf(Ge(obj, e.old.next)), t: boolT}
+		case "buflen":
+			// buflen(b): unread bytes of a *bytes.Buffer
+			a := e.eval(x.Args[0])
+			if a.v.K != KPtr {
+				specPanic("buflen of non-pointer")
+			}
+			blen := e.st.cellRead(SInt, a.v.Obj(), offPlus(a.v.Off(), 2))
+			off := e.st.cellRead(SInt, a.v.Obj(), offPlus(a.v.Off(), 4))
+			return sval{v: Leaf(Sub(blen, off)), t: specIntType}
 		case "newerThan":
 			// newerThan(a, b): the object a refers to was allocated after the one b refers to
 			objOf := func(v sval) Term {
@@ -995,6 +1079,24 @@ func (e *Env) evalCall(x *ast.CallExpr) sval {
 				return sval{v: Leaf(Ite(c, a.v.T, b.v.T)), t: a.t}
 			}
 			return sval{v: Leaf(Ite(c, b.v.T, a.v.T)), t: a.t}
+		}
+		// parameterised predicate?
+		if e.pkg != nil {
+			if pd, ok := fc.eng.contracts.Preds[contractKey(e.pkg.Path(), id.Name)]; ok && len(pd.Params) == len(x.Args) && len(pd.Params) > 0 {
+				n := e.sub()
+				for i, pn := range pd.Params {
+					a := e.eval(x.Args[i])
+					if a.isConst {
+						a = e.coerce(a, types.Typ[types.Int])
+					}
+					n.binds[pn] = binding{a.v, a.t}
+				}
+				pe, perr := parser.ParseExpr(pd.Body)
+				if perr != nil {
+					specPanic("pred %s: %v", id.Name, perr)
+				}
+				return n.eval(pe)
+			}
 		}
 		// spec function?
 		if e.pkg != nil {
@@ -1085,3 +1187,24 @@ func exprString(e ast.Expr) string {
 }
 
 var _ = strings.Join
+
+// loadT loads a value in a spec expression and records the well-typedness facts
+// of the loaded value (slice lengths are non-negative, references are allocated):
+// they hold of every Go heap, also of a havocked one.
+func (e *Env) loadT(t types.Type, obj, off Term) Value {
+	fc := e.fc
+	v := fc.load(e.st, t, obj, off)
+	if fc.pureMode || v.K == KOpaque {
+		return v
+	}
+	var fs []Term
+	fs = fc.typeFacts(t, v, e.st.next)
+	for _, f := range fs {
+		if !strings.Contains(f.S, "!q") && !strings.Contains(f.S, "!L") {
+			fc.assume(f)
+		} else {
+			e.pending = append(e.pending, f)
+		}
+	}
+	return v
+}
